@@ -285,6 +285,14 @@ impl<L: Language, N: Analysis<L>> EGraph<L, N> {
                 #[allow(unused)]
                 let (a, b, proof) = self.pc_congruence(&pc1, &pc2);
 
+                // The variant may exchange a class slot with a redundant slot of the e-node.
+                // That is no permutation of the class slots: it proves the class slot redundant.
+                // union_internal handles this (it shrinks the class and re-queues its usages).
+                if a.slots() != b.slots() {
+                    self.union_internal(&a, &b, proof);
+                    return;
+                }
+
                 // or is it the opposite direction? (flip a with b)
                 let perm = a.m.compose(&b.m.inverse());
 
